@@ -1,4 +1,5 @@
 /* lst_hello.c - drives the main loop of examples/hello-world/hello-world-listener.c (C18) */
+#define LST_LEARN_REFERENCE 1
 #include "lst_common.h"
 static ssize_t lst_recv(int fd, void* buf, size_t n, int flags);
 #define main listener_main
@@ -76,7 +77,7 @@ static int lst_child(int mode, const seq_t* s)
     if (mainloop_setup() < 0) return EX_HARNESS;
     vp_rng_t r; vp_rng_seed(&r, 99, 1);
     g_sentinel_len = (int)build_valid(&r, mode, 0, g_sentinel, "SENTINEL-MSG", 12, 1);
-    g_expect = "SENTINEL-MSG : GPC Code 4660\n";
+    g_expect = "SENTINEL-MSG : GPC Code 4660\n"; g_expect_token = "SENTINEL-MSG"; g_cur_mode = mode; g_cur_variant = 0;
     char* argv_u[] = { "hello-world-listener", "-u", 0 };
     char* argv_r[] = { "hello-world-listener", 0 };
     listener_main(mode ? 2 : 1, mode ? argv_u : argv_r);
